@@ -106,10 +106,11 @@ theorem C11_gen_prop_versions :
     propVersions.all propVersionOK = true ∧ propWriterChecksSize = true ∧
     (propVersions.any (fun v => v.name == propDefault)) = true := by decide +kernel
 
-/-- every variable-length string packed into an `…s` field is length-checked at the call site
-(`struct` itself truncates silently, see `C11_struct_str_truncates`) -/
+/-- every byte string packed into an `…s` field — the model-name dictionaries and the fixed-size
+byte fields inside records (`Face.light_styles`, `VisLeaf._ambient`) — is length-checked at the call
+site (`struct` itself truncates silently, see `C11_struct_str_truncates`) -/
 theorem C11_gen_names_guarded :
-    (strSites.filter isNameSite).all (fun s => s.2.2.2.1) = true := by decide +kernel
+    strSites.all (fun s => s.2.2.2.1) = true ∧ (strSites.filter isNameSite).length = 2 := by decide +kernel
 
 /-- the texture writer rejects every name the reader could not find the terminator of -/
 theorem C11_gen_texture_limits : textureWriteLimit ≤ textureReadLimit ∧ 0 < textureWriteLimit := by
